@@ -154,6 +154,30 @@ type domain32 struct {
 
 var fullDomain = domain32{name: "all 2^32 values", size: 1 << 32}
 
+// splitDomain is every 32-bit value whose upper OR lower 16 bits lie in
+// S16 = {2^k-1, 2^k, 2^k+1 : k = 0..16} (46 values: all powers of two and
+// their neighbours, 0 and 0xffff): no stride, every carry boundary of the
+// 7-bit groups (bits 7, 14, 21, 28) is crossed with all 65536 settings of the
+// other half.
+func splitDomain() domain32 {
+	inS := make([]bool, 65536)
+	n := uint64(0)
+	for k := uint(0); k <= 16; k++ {
+		for _, d := range []int{-1, 0, 1} {
+			v := (1 << k) + d
+			if v >= 0 && v < 65536 && !inS[v] {
+				inS[v] = true
+				n++
+			}
+		}
+	}
+	return domain32{
+		name: fmt.Sprintf("values whose upper or lower 16 bits are one of the %d values 2^k-1, 2^k, 2^k+1", n),
+		has:  func(u uint32) bool { return inS[u>>16] || inS[u&0xffff] },
+		size: 2*n*65536 - n*n,
+	}
+}
+
 // sweep32 runs the full 32-bit domains on one copy in a single pass over a
 // counter u = 0..2^32-1: the reference encoding E(u) is built once; then
 //
